@@ -84,19 +84,51 @@ def putBack (st : State) (k : Side × Nat) : State :=
 
 def FState.abs (f : FState) : State := f.hand.foldl putBack f.st
 
-/-- the coarse operation a fine operation stands for (`none` = a silent step) -/
+/-- the coarse operation a fine operation stands for (`none` = a silent step: taking the ENDMARKER in hand, or
+a receiver that finds the queue empty because another receiver holds the ENDMARKER — it keeps blocking) -/
 def FOp.coarseOf (f : FState) : FOp → Option Op
+  | .coarse (.receive s id) =>
+    -- an atomic receive issued while another receiver holds the ENDMARKER finds the queue empty and keeps blocking
+    let c := (f.st.side s).chans id
+    match c.queue with
+    | some [] => if c.alive && f.hand.contains (s, id) then none else some (.receive s id)
+    | _ => some (.receive s id)
   | .coarse op => some op
   | .recvGet s id =>
-    match ((f.st.side s).chans id).queue with
-    | some (.endmarker :: _) => if ((f.st.side s).chans id).alive then none else some (.receive s id)
+    let c := (f.st.side s).chans id
+    match c.queue with
+    | some (.endmarker :: _) => if c.alive then none else some (.receive s id)
+    | some [] => if c.alive && f.hand.contains (s, id) then none else some (.receive s id)
     | _ => some (.receive s id)
   | .recvFin s id => if f.hand.contains (s, id) then some (.receive s id) else none
 
-/-- the hypothesis under which the two-step receive is harmless: no `setcallback` on a channel while one
-of its receivers holds the ENDMARKER -/
+/-- the hypothesis under which the two-step receive is harmless: while a receiver of a channel holds its
+ENDMARKER, no `setcallback` on that channel (D22: the put-back goes to the detached queue, the endmarker is lost
+for every other receiver) and the channel object is not dropped (the receiver itself references it) -/
 def FOp.respectsHands (f : FState) : FOp → Bool
   | .coarse (.setcallback s id _) => !(f.hand.contains (s, id))
+  | .coarse (.drop s id) => !(f.hand.contains (s, id))
   | _ => true
+
+/-- every operation of the run respects the hands at the moment it is issued -/
+def guardedRun (fails : Item → Bool) : FState → List FOp → Bool
+  | _, [] => true
+  | f, op :: ops => op.respectsHands f && guardedRun fails (fstep fails f op).2 ops
+
+/-- the coarse history a fine history stands for -/
+def project (fails : Item → Bool) : FState → List FOp → List Op
+  | _, [] => []
+  | f, op :: ops =>
+    match op.coarseOf f with
+    | none => project fails (fstep fails f op).2 ops
+    | some cop => cop :: project fails (fstep fails f op).2 ops
+
+/-- the outputs of the non-silent steps -/
+def visibleOuts (fails : Item → Bool) : FState → List FOp → List Out
+  | _, [] => []
+  | f, op :: ops =>
+    match op.coarseOf f with
+    | none => visibleOuts fails (fstep fails f op).2 ops
+    | some _ => (fstep fails f op).1 :: visibleOuts fails (fstep fails f op).2 ops
 
 end ExecnetVerif.Net
